@@ -12,6 +12,7 @@ def normalise(cfg):
     c.setdefault("extra", [])
     c.setdefault("plan", [])
     c.setdefault("advRounds", 0)
+    c.setdefault("advProv", 0)
     c.setdefault("perm", [])
     c.setdefault("adv", [])
     c.setdefault("api", False)
@@ -226,6 +227,10 @@ def random_cfg(rng, alg=None, family="roomy", nobs=None, maxn=4):
             o["ing"] = min(o["ing"], c["maxIngest"])
             if o["wf"].pop("wide", False):
                 c.setdefault("_wide", []).append(o["o"])
+                if c["alg"] in ("plan", "greedy") and rng.random() < 0.6:
+                    # a cluster with two-digit machine numbers
+                    c["machines"] = [{"id": f"m{i}", "cpu": rng.choice([1, 2, 3]), "bw": 1} for i in range(12)]
+                    c["K"] = 1
             if o["wf"].pop("steered", False):
                 c["machines"] = [{"id": "m0", "cpu": 1, "bw": c["machines"][0]["bw"]},
                                  {"id": "m1", "cpu": 1, "bw": c["machines"][0]["bw"]}]
@@ -325,6 +330,7 @@ def random_cfg(rng, alg=None, family="roomy", nobs=None, maxn=4):
     if alg == "adv":
         cfg["advRounds"] = rng.randint(1, 4)
         cfg["advSeed"] = rng.randint(0, 10 ** 6)
+        cfg["advProv"] = rng.choice([0, 0, 1, 2])
     return normalise(cfg)
 
 
